@@ -33,6 +33,14 @@ func H_C06_prune() {
 	if indexed {
 		sxAssert(t.ReinitIndexes() == nil, "ReinitIndexes succeeds on a valid tree")
 	}
+	if indexed && sxChoose("renamedafterindex", 2) == 1 {
+		// two tips exchange their names after the index was built: requests by
+		// name must follow the current names, not the stale index
+		tp := t.Tips()
+		a, b := tp[0].Name(), tp[len(tp)-1].Name()
+		tp[0].SetName(b)
+		tp[len(tp)-1].SetName(a)
+	}
 	full := uint64(1)<<uint(n) - 1
 	sub := uint64(sxChoose("subset", 1<<uint(n)))
 	revert := sxChoose("revert", 2) == 1
